@@ -317,3 +317,34 @@ pub fn w22_cfg_variant_on_flat() {}
 /// enum EnumCfg { A, B(u8), C(u8) }
 /// ```
 pub fn t22_cfg_variant_on_flat() {}
+
+/// C17/C04: the same guard for enums. `align(N)` is the one representation hint rustc accepts next to the macro's own
+/// `#[repr(C, u8)]` / `#[repr(u8)]`, so the macro itself has to refuse it (a "portable" enum of alignment 4 with padding bytes otherwise).
+/// ```compile_fail
+/// use flatty::{flat, portable::le};
+/// #[flat(portable = true)]
+/// #[repr(align(4))]
+/// enum OverEnum { A, B(le::U16) }
+/// ```
+pub fn w23_user_repr_on_flat_enum() {}
+/// ```no_run
+/// use flatty::{flat, portable::le};
+/// #[flat(portable = true)]
+/// enum OverEnum { A, B(le::U16) }
+/// ```
+pub fn t23_user_repr_on_flat_enum() {}
+
+/// Same for a field-less enum.
+/// ```compile_fail
+/// use flatty::flat;
+/// #[flat(portable = true)]
+/// #[repr(align(2))]
+/// enum OverTag { A, B }
+/// ```
+pub fn w24_user_repr_on_clike_enum() {}
+/// ```no_run
+/// use flatty::flat;
+/// #[flat(portable = true)]
+/// enum OverTag { A, B }
+/// ```
+pub fn t24_user_repr_on_clike_enum() {}
